@@ -82,6 +82,9 @@ func genC19(conc bool) func(t *rapid.T) C19Case {
 				root.Code = append([]app.Instr{{Op: refdec.CATCH, Sym: refdec.BS(target), Num: 8, Mode: false}}, root.Code...)
 			}
 		}
+		// the engine's state debugging (flag names in log lines) goes through the
+		// process-wide state.FlagDebugger
+		a.Cfg.StateDebug = chancePct(t, 30, "statedebug")
 		n := rapid.IntRange(2, 6).Draw(t, "nsessions")
 		if chancePct(t, 15, "many") {
 			n = rapid.IntRange(7, 16).Draw(t, "nsessionsmany")
@@ -273,19 +276,14 @@ func checkC19Sched(c C19Case) (o Outcome) {
 }
 
 func checkC19Conc(c C19Case) (o Outcome) {
-	solo := c19Solo(c)
-	for _, s := range solo {
-		for _, st := range s {
-			if st.Exceeded {
-				o.Discard = "move-budget"
-				return
-			}
-		}
-	}
 	reps := c.Reps
 	if reps < 1 {
 		reps = 1
 	}
+	// the first concurrent run comes BEFORE the sequential reference: whatever the library
+	// fills in on first use (a memo, a lazily built table) is then still cold, and two
+	// sessions race for it the way they would in a fresh server process
+	var solo [][]app.Step
 	for r := 0; r < reps; r++ {
 		e := newC19Env(c, app.NewShared(c.App), -1)
 		got := make([][]app.Step, len(c.Hists))
@@ -307,6 +305,18 @@ func checkC19Conc(c C19Case) (o Outcome) {
 		}
 		close(start)
 		wg.Wait()
+		if solo == nil {
+			solo = c19Solo(c)
+			for _, s := range solo {
+				for _, st := range s {
+					if st.Exceeded {
+						e.close()
+						o.Discard = "move-budget"
+						return
+					}
+				}
+			}
+		}
 		v := c19Compare(c, solo, got, "concurrently")
 		if v == nil {
 			v = e.sharedUnchanged()
@@ -328,9 +338,11 @@ var _ = registerReplay("C19", "conc", checkC19Conc)
 
 func TestC19(t *testing.T) {
 	runKnownExamples(t, "C19")
-	RunProp(t, "C19", "sched", pick(600, 6000), genC19(false), checkC19Sched)
+	// the concurrent sub-check goes first: state that is filled in on first use (a memo, a
+	// lazily built table) is only raced for while it is still cold in this process
+	RunProp(t, "C19", "conc", pick(60, 600), genC19(true), checkC19Conc)
 	if t.Failed() {
 		return
 	}
-	RunProp(t, "C19", "conc", pick(60, 600), genC19(true), checkC19Conc)
+	RunProp(t, "C19", "sched", pick(600, 6000), genC19(false), checkC19Sched)
 }
